@@ -129,6 +129,12 @@ func observeGetter(c psatoken.IClaims, k Claim) GetterObs {
 		for _, sc := range v {
 			parts = append(parts, obsComp(sc))
 		}
+		// the list the getter returned is the CALLER's: it re-orders it in
+		// place after looking at it (sorting for display, filtering) - which
+		// is nothing to the claims-set; the next read shows
+		for i, j := 0, len(v)-1; i < j; i, j = i+1, j-1 {
+			v[i], v[j] = v[j], v[i]
+		}
 		return GetterObs{EOK, "[" + strings.Join(parts, " ") + "]"}
 	case CNonce:
 		v, err := c.GetNonce()
